@@ -566,6 +566,288 @@ Example C06_volume_three_directions_instance :
   eqLLQ (v_P (fst r')) (v_P exVm) = true.
 Proof. cbv zeta. repeat split; vm_compute; congruence. Qed.
 
+
+From Coq Require Import Permutation.
+From NV Require Import Proofs.RefineDefault Proofs.RefineOp Proofs.KnotRemMore Proofs.KnotRemMoreRefine Proofs.KnotRemMoreOrder Proofs.KnotRemMoreExamples.
+
+
+(* ====================== SEVERAL DIRECTIONS IN ONE CALL, SMALLER REMOVAL COUNTS (Proofs/KnotRemMore.v) ======================
+   "... then removing it (that many times, or FEWER) in any direction": remove_knot(obj', params, [ju, jv(, jw)]) after an accepted
+   insert_knot(obj, params, [ru, rv(, rw)]) with ju <= ru, jv <= rv(, jw <= rw) returns EXACTLY what
+   insert_knot(obj, params, [ru - ju, rv - jv(, rw - jw)]) returns (whole record and exception flag).  Vocabulary: swf / vwf, par_ok,
+   eff, kv_after of Proofs/InsertOpSurf.v (see C06_surface_remove_after_insert_all_directions). *)
+
+(* [G] surfaces, any subset of directions, all degrees / sizes / multiplicities / counts, tolerances >= 0 *)
+Theorem C06_surface_remove_fewer_after_insert : forall (tol tol2 : R) (g : surf (T:=R)) (ou ov : option R) (ru rv ju jv dim : nat),
+  swf g dim -> length (s_P g) = (s_sv g * s_su g)%nat ->
+  par_ok tol (s_pu g) (s_Uu g) (s_su g) ou -> par_ok tol (s_pv g) (s_Uv g) (s_sv g) ov -> (0 <= tol)%R -> (0 <= tol2)%R ->
+  (ju <= ru)%nat -> (jv <= rv)%nat ->
+  forall g2, insert_knot_surf Rops tol true g [ou; ov] [Z.of_nat ru; Z.of_nat rv] = (g2, false) ->
+  remove_knot_surf Rops tol tol2 true g2 [ou; ov] [Z.of_nat ju; Z.of_nat jv]
+  = insert_knot_surf Rops tol true g [ou; ov] [Z.of_nat (ru - ju); Z.of_nat (rv - jv)] /\
+  snd (insert_knot_surf Rops tol true g [ou; ov] [Z.of_nat (ru - ju); Z.of_nat (rv - jv)]) = false.
+Proof. exact insert_then_remove_less_surf. Qed.
+Print Assumptions C06_surface_remove_fewer_after_insert.
+
+(* [G] ... read on the result: no exception, sizes / knot vectors are those of the insertion with the count differences, every
+   surface point is unchanged after the insertion and after the partial removal *)
+Theorem C06_surface_remove_fewer_after_insert_points : forall (tol tol2 : R) (g : surf (T:=R)) (ou ov : option R) (ru rv ju jv dim : nat),
+  swf g dim -> length (s_P g) = (s_sv g * s_su g)%nat ->
+  par_ok tol (s_pu g) (s_Uu g) (s_su g) ou -> par_ok tol (s_pv g) (s_Uv g) (s_sv g) ov -> (0 <= tol)%R -> (0 <= tol2)%R ->
+  (ju <= ru)%nat -> (jv <= rv)%nat ->
+  forall g2 g3 raised, insert_knot_surf Rops tol true g [ou; ov] [Z.of_nat ru; Z.of_nat rv] = (g2, false) ->
+  remove_knot_surf Rops tol tol2 true g2 [ou; ov] [Z.of_nat ju; Z.of_nat jv] = (g3, raised) ->
+  raised = false /\
+  s_su g3 = (s_su g + eff ou (ru - ju))%nat /\ s_sv g3 = (s_sv g + eff ov (rv - jv))%nat /\
+  s_Uu g3 = kv_after (s_pu g) (s_Uu g) (s_su g) ou (ru - ju) /\ s_Uv g3 = kv_after (s_pv g) (s_Uv g) (s_sv g) ov (rv - jv) /\
+  s_pu g3 = s_pu g /\ s_pv g3 = s_pv g /\ swf g3 dim /\
+  forall c tu tv, (c < dim)%nat -> surf_pt g2 c tu tv = surf_pt g c tu tv /\ surf_pt g3 c tu tv = surf_pt g c tu tv.
+Proof. exact insert_then_remove_less_surf_points. Qed.
+Print Assumptions C06_surface_remove_fewer_after_insert_points.
+
+(* [G] volumes, any subset of the three directions *)
+Theorem C06_volume_remove_fewer_after_insert :
+  forall (tol tol2 : R) (g : vol (T:=R)) (ou ov ow : option R) (ru rv rw ju jv jw dim : nat),
+  vwf g dim -> length (v_P g) = (v_su g * v_sv g * v_sw g)%nat ->
+  par_ok tol (v_pu g) (v_Uu g) (v_su g) ou -> par_ok tol (v_pv g) (v_Uv g) (v_sv g) ov ->
+  par_ok tol (v_pw g) (v_Uw g) (v_sw g) ow -> (0 <= tol)%R -> (0 <= tol2)%R ->
+  (ju <= ru)%nat -> (jv <= rv)%nat -> (jw <= rw)%nat ->
+  forall g3, insert_knot_vol Rops tol true g [ou; ov; ow] [Z.of_nat ru; Z.of_nat rv; Z.of_nat rw] = (g3, false) ->
+  remove_knot_vol Rops tol tol2 true g3 [ou; ov; ow] [Z.of_nat ju; Z.of_nat jv; Z.of_nat jw]
+  = insert_knot_vol Rops tol true g [ou; ov; ow] [Z.of_nat (ru - ju); Z.of_nat (rv - jv); Z.of_nat (rw - jw)] /\
+  snd (insert_knot_vol Rops tol true g [ou; ov; ow] [Z.of_nat (ru - ju); Z.of_nat (rv - jv); Z.of_nat (rw - jw)]) = false.
+Proof. exact insert_then_remove_less_vol. Qed.
+Print Assumptions C06_volume_remove_fewer_after_insert.
+
+Theorem C06_volume_remove_fewer_after_insert_points :
+  forall (tol tol2 : R) (g : vol (T:=R)) (ou ov ow : option R) (ru rv rw ju jv jw dim : nat),
+  vwf g dim -> length (v_P g) = (v_su g * v_sv g * v_sw g)%nat ->
+  par_ok tol (v_pu g) (v_Uu g) (v_su g) ou -> par_ok tol (v_pv g) (v_Uv g) (v_sv g) ov ->
+  par_ok tol (v_pw g) (v_Uw g) (v_sw g) ow -> (0 <= tol)%R -> (0 <= tol2)%R ->
+  (ju <= ru)%nat -> (jv <= rv)%nat -> (jw <= rw)%nat ->
+  forall g3 g4 raised, insert_knot_vol Rops tol true g [ou; ov; ow] [Z.of_nat ru; Z.of_nat rv; Z.of_nat rw] = (g3, false) ->
+  remove_knot_vol Rops tol tol2 true g3 [ou; ov; ow] [Z.of_nat ju; Z.of_nat jv; Z.of_nat jw] = (g4, raised) ->
+  raised = false /\
+  v_su g4 = (v_su g + eff ou (ru - ju))%nat /\ v_sv g4 = (v_sv g + eff ov (rv - jv))%nat /\ v_sw g4 = (v_sw g + eff ow (rw - jw))%nat /\
+  v_Uu g4 = kv_after (v_pu g) (v_Uu g) (v_su g) ou (ru - ju) /\ v_Uv g4 = kv_after (v_pv g) (v_Uv g) (v_sv g) ov (rv - jv) /\
+  v_Uw g4 = kv_after (v_pw g) (v_Uw g) (v_sw g) ow (rw - jw) /\ vwf g4 dim /\
+  forall c tu tv tw, (c < dim)%nat -> vol_pt g3 c tu tv tw = vol_pt g c tu tv tw /\ vol_pt g4 c tu tv tw = vol_pt g c tu tv tw.
+Proof. exact insert_then_remove_less_vol_points. Qed.
+Print Assumptions C06_volume_remove_fewer_after_insert_points.
+
+(* ---- non-vacuity over the REALS (Proofs/KnotRemMoreExamples.v): a biquadratic 3 x 4 surface, insert [1/3, 1/2] x [2, 1], remove [1, 1];
+        a 3 x 2 x 3 volume of degrees (2,1,2), insert [1/3, 1/2, 1/4] x [2, 1, 1], remove [1, 0, 1]: every hypothesis holds (the insert
+        call is accepted), hence the conclusion *)
+Example C06_surface_remove_fewer_hypotheses_satisfiable :
+  swf exGR 3 /\ length (s_P exGR) = (s_sv exGR * s_su exGR)%nat /\
+  par_ok (1/1000) (s_pu exGR) (s_Uu exGR) (s_su exGR) (Some (1/3)%R) /\ par_ok (1/1000) (s_pv exGR) (s_Uv exGR) (s_sv exGR) (Some (1/2)%R) /\
+  (0 <= 1/1000)%R /\ (0 <= 1/1000000)%R /\ (1 <= 2)%nat /\ (1 <= 1)%nat /\
+  exists g2, insert_knot_surf Rops (1/1000)%R true exGR [Some (1/3)%R; Some (1/2)%R] [Z.of_nat 2; Z.of_nat 1] = (g2, false).
+Proof. exact less_surf_hypotheses_satisfiable. Qed.
+
+Example C06_volume_remove_fewer_hypotheses_satisfiable :
+  vwf exVR 3 /\ length (v_P exVR) = (v_su exVR * v_sv exVR * v_sw exVR)%nat /\
+  par_ok (1/1000) (v_pu exVR) (v_Uu exVR) (v_su exVR) (Some (1/3)%R) /\ par_ok (1/1000) (v_pv exVR) (v_Uv exVR) (v_sv exVR) (Some (1/2)%R) /\
+  par_ok (1/1000) (v_pw exVR) (v_Uw exVR) (v_sw exVR) (Some (1/4)%R) /\
+  (0 <= 1/1000)%R /\ (0 <= 1/1000000)%R /\ (1 <= 2)%nat /\ (0 <= 1)%nat /\ (1 <= 1)%nat /\
+  exists g3, insert_knot_vol Rops (1/1000)%R true exVR [Some (1/3)%R; Some (1/2)%R; Some (1/4)%R] [Z.of_nat 2; Z.of_nat 1; Z.of_nat 1] = (g3, false).
+Proof. exact less_vol_hypotheses_satisfiable. Qed.
+
+(* ---- ... and at the executable instance (exact rationals): the same surface / volume, the model run by vm_compute ---- *)
+Definition exSl : @surf Q :=
+  mkS 2 2 [0;0;0;1;1;1]%Q [0;0;0;1#2;1;1;1]%Q 3 4
+    [[0;0;0];[0;1;1];[0;2;0];[0;3;2]; [1;0;1];[1;1;3];[1;2;1];[1;3;0]; [2;0;0];[2;1;1];[2;2;2];[2;3;1]]%Q.
+Example C06_surface_remove_fewer_instance :
+  let r := insert_knot_surf Qops 0%Q true exSl [Some (1#3)%Q; Some (1#2)%Q] [2%Z; 1%Z] in
+  let r' := remove_knot_surf Qops 0%Q (1#1000000)%Q true (fst r) [Some (1#3)%Q; Some (1#2)%Q] [1%Z; 1%Z] in
+  let r'' := insert_knot_surf Qops 0%Q true exSl [Some (1#3)%Q; Some (1#2)%Q] [1%Z; 0%Z] in
+  snd r = false /\ s_su (fst r) = 5%nat /\ s_sv (fst r) = 5%nat /\
+  snd r' = false /\ snd r'' = false /\ s_su (fst r') = 4%nat /\ s_sv (fst r') = 4%nat /\
+  eqLQ (s_Uu (fst r')) (s_Uu (fst r'')) = true /\ eqLQ (s_Uv (fst r')) (s_Uv (fst r'')) = true /\
+  eqLLQ (s_P (fst r')) (s_P (fst r'')) = true /\ eqLQ (s_Uv (fst r')) (s_Uv exSl) = true.
+Proof. cbv zeta. repeat split; vm_compute; congruence. Qed.
+
+Definition exVl : @vol Q :=
+  mkV 2 1 2 [0;0;0;1;1;1]%Q [0;0;1;1]%Q [0;0;0;1;1;1]%Q 3 2 3
+    [[0;0;0];[0;1;1];[1;0;2];[1;1;0];[2;0;1];[2;1;3]; [0;0;5];[0;1;4];[1;0;6];[1;1;7];[2;0;5];[2;1;4];
+     [0;0;9];[0;1;8];[1;0;9];[1;1;11];[2;0;10];[2;1;8]]%Q.
+Example C06_volume_remove_fewer_instance :
+  let r := insert_knot_vol Qops 0%Q true exVl [Some (1#3)%Q; Some (1#2)%Q; Some (1#4)%Q] [2%Z; 1%Z; 1%Z] in
+  let r' := remove_knot_vol Qops 0%Q (1#1000000)%Q true (fst r) [Some (1#3)%Q; Some (1#2)%Q; Some (1#4)%Q] [1%Z; 0%Z; 1%Z] in
+  let r'' := insert_knot_vol Qops 0%Q true exVl [Some (1#3)%Q; Some (1#2)%Q; Some (1#4)%Q] [1%Z; 1%Z; 0%Z] in
+  snd r = false /\ snd r' = false /\ snd r'' = false /\
+  v_su (fst r') = 4%nat /\ v_sv (fst r') = 3%nat /\ v_sw (fst r') = 3%nat /\
+  eqLQ (v_Uu (fst r')) (v_Uu (fst r'')) = true /\ eqLQ (v_Uv (fst r')) (v_Uv (fst r'')) = true /\ eqLQ (v_Uw (fst r')) (v_Uw (fst r'')) = true /\
+  eqLLQ (v_P (fst r')) (v_P (fst r'')) = true.
+Proof. cbv zeta. repeat split; vm_compute; congruence. Qed.
+
+
+(* ====================== REMOVAL AFTER A GENERAL REFINEMENT, ANY ORDER (Proofs/KnotRemMoreRefine.v, KnotRemMoreOrder.v) ======================
+   Replaces the bounded C06_remove_after_refine_X1.  Hypotheses = those of C05_refine_preserves_curve (RefineGeneral): p >= 1, U sorted of
+   length n + p + 1, X a non-empty sorted list of new knots in the half-open domain [U_p, U_n), tol = tolerance of A5.4's alpha test
+   (a knot above a new knot is at least tol away), no knot ends up with multiplicity above p, points of one dimension; plus
+   tolm = multiplicity tolerance of insert_knot / remove_knot (>= 0, never confuses a new knot with a different knot) and tol2 >= 0
+   (squared removal tolerance).  A "schedule" is a list of (knot, count) pairs; expand lists every knot as often as its count. *)
+
+(* [G] two calls insert_knot(curve, [x], [1]) and insert_knot(curve, [y], [1]) at different knots commute - control points, knot
+   vector and acceptance (cwf: sorted knot vector of the right length, degree < size, points of one dimension) *)
+Theorem C06_single_insertions_commute : forall (tol : R) (c : curve (T:=R)) (dim : nat) (x y : R),
+  (0 <= tol)%R -> cwf c dim ->
+  par_ok tol (c_p c) (c_U c) (length (c_P c)) (Some x) -> par_ok tol (c_p c) (c_U c) (length (c_P c)) (Some y) ->
+  (tol < Rabs (y - x))%R ->
+  snd (insert_knot_curve Rops tol true c [Some x] [1%Z]) = false -> snd (insert_knot_curve Rops tol true c [Some y] [1%Z]) = false ->
+  let ins := fun (c : curve (T:=R)) (z : R) => insert_knot_curve Rops tol true c [Some z] [1%Z] in
+  ins (fst (ins c x)) y = ins (fst (ins c y)) x /\ snd (ins (fst (ins c x)) y) = false.
+Proof. exact insert_knot_curve_commute. Qed.
+Print Assumptions C06_single_insertions_commute.
+
+(* [G] A5.4 (knot refinement with the list X) computes exactly - control points and knot vector, as lists - what inserting the knots
+   of X ONE AT A TIME with operations.insert_knot computes, in ANY order `order` (a rearrangement of X); every call is accepted *)
+Theorem C06_refinement_is_repeated_insertion :
+  forall (tol tolm : R) (p : nat) (U : list R) (P : list (list R)) (X order : list R) (dim : nat),
+  (1 <= p)%nat -> sortedR U -> (p < length P)%nat -> length U = (length P + p + 1)%nat ->
+  X <> [] -> sortedR X -> (knR U p <= nth 0 X 0)%R -> (nth (length X - 1) X 0 < knR U (length P))%R ->
+  (forall x y, In x X -> In y (X ++ U) -> (x < y)%R -> (tol <= y - x)%R) ->
+  (forall x, In x X -> (count_occ Req_EM_T (X ++ U) x <= p)%nat) ->
+  (forall i, (i < length P)%nat -> length (getp P i) = dim) ->
+  (0 <= tolm)%R -> (forall x y, In x X -> In y (X ++ U) -> (Rabs (x - y) <= tolm)%R -> y = x) ->
+  Permutation order X ->
+  let ins := fun (c : curve (T:=R)) (x : R) => insert_knot_curve Rops tolm true c [Some x] [1%Z] in
+  let cF := fold_left (fun c x => fst (ins c x)) order (mkC p U P) in
+  refine_pts Rops tol p U P X = (c_P cF, c_U cF) /\ c_p cF = p /\
+  (forall l1 x l2, order = l1 ++ x :: l2 -> snd (ins (fold_left (fun c x => fst (ins c x)) l1 (mkC p U P)) x) = false).
+Proof. exact refine_is_insert_chain_any_order. Qed.
+Print Assumptions C06_refinement_is_repeated_insertion.
+
+(* [G] THE STATEMENT: for EVERY schedule whose expansion is a rearrangement of X (any order of the knots; one copy per call, all
+   copies of a knot in one call, or anything in between), running operations.remove_knot(curve, [x_i], [n_i]) along the schedule on
+   the refined curve (a) returns the original curve record - degree, knot vector, control points -, (b) never raises, and (c) after
+   every prefix of the schedule the curve has the points of the original curve (every coordinate, every parameter) *)
+Theorem C06_remove_after_refinement_any_order :
+  forall (tol tolm tol2 : R) (p : nat) (U : list R) (P : list (list R)) (X : list R) (dim : nat) (sched : list (R * nat)),
+  (1 <= p)%nat -> sortedR U -> (p < length P)%nat -> length U = (length P + p + 1)%nat ->
+  X <> [] -> sortedR X -> (knR U p <= nth 0 X 0)%R -> (nth (length X - 1) X 0 < knR U (length P))%R ->
+  (forall x y, In x X -> In y (X ++ U) -> (x < y)%R -> (tol <= y - x)%R) ->
+  (forall x, In x X -> (count_occ Req_EM_T (X ++ U) x <= p)%nat) ->
+  (forall i, (i < length P)%nat -> length (getp P i) = dim) ->
+  (0 <= tolm)%R -> (forall x y, In x X -> In y (X ++ U) -> (Rabs (x - y) <= tolm)%R -> y = x) -> (0 <= tol2)%R ->
+  Permutation (expand sched) X ->
+  let rm := fun (c : curve (T:=R)) (e : R * nat) => remove_knot_curve Rops tolm tol2 true c [Some (fst e)] [Z.of_nat (snd e)] in
+  let '(Q, V) := refine_pts Rops tol p U P X in
+  fold_left (fun c e => fst (rm c e)) sched (mkC p V Q) = mkC p U P /\
+  (forall s1 e s2, sched = s1 ++ e :: s2 -> snd (rm (fold_left (fun c e => fst (rm c e)) s1 (mkC p V Q)) e) = false) /\
+  (forall s1 s2, sched = s1 ++ s2 -> forall cc t, (cc < dim)%nat ->
+     let c := fold_left (fun c e => fst (rm c e)) s1 (mkC p V Q) in
+     c_p c = p /\ curve_pt p (c_U c) (c_P c) cc t = curve_pt p U P cc t).
+Proof. exact remove_after_refine_any_order. Qed.
+Print Assumptions C06_remove_after_refinement_any_order.
+
+(* [G] "... or fewer": removing only SOME of the refined knots (the schedule s1: any knots, any order, any grouping) while the sorted
+   list X' of the others stays gives exactly the curve A5.4 returns for X'; no call raises *)
+Theorem C06_remove_some_after_refinement :
+  forall (tol tolm tol2 : R) (p : nat) (U : list R) (P : list (list R)) (X X' : list R) (dim : nat) (s1 : list (R * nat)),
+  (1 <= p)%nat -> sortedR U -> (p < length P)%nat -> length U = (length P + p + 1)%nat ->
+  X <> [] -> sortedR X -> (knR U p <= nth 0 X 0)%R -> (nth (length X - 1) X 0 < knR U (length P))%R ->
+  (forall x y, In x X -> In y (X ++ U) -> (x < y)%R -> (tol <= y - x)%R) ->
+  (forall x, In x X -> (count_occ Req_EM_T (X ++ U) x <= p)%nat) ->
+  (forall i, (i < length P)%nat -> length (getp P i) = dim) ->
+  (0 <= tolm)%R -> (forall x y, In x X -> In y (X ++ U) -> (Rabs (x - y) <= tolm)%R -> y = x) -> (0 <= tol2)%R ->
+  X' <> [] -> sortedR X' -> Permutation (expand s1 ++ X') X ->
+  let rm := fun (c : curve (T:=R)) (e : R * nat) => remove_knot_curve Rops tolm tol2 true c [Some (fst e)] [Z.of_nat (snd e)] in
+  fold_left (fun c e => fst (rm c e)) s1 (mkC p (snd (refine_pts Rops tol p U P X)) (fst (refine_pts Rops tol p U P X)))
+  = mkC p (snd (refine_pts Rops tol p U P X')) (fst (refine_pts Rops tol p U P X')) /\
+  (forall sa e sb, s1 = sa ++ e :: sb ->
+     snd (rm (fold_left (fun c e => fst (rm c e)) sa (mkC p (snd (refine_pts Rops tol p U P X)) (fst (refine_pts Rops tol p U P X)))) e) = false).
+Proof. exact remove_some_after_refine. Qed.
+Print Assumptions C06_remove_some_after_refinement.
+
+(* [G] one knot per call, the knots taken in the order of any rearrangement of X (order = X: reverse order of insertion) *)
+Theorem C06_remove_after_refinement_one_by_one :
+  forall (tol tolm tol2 : R) (p : nat) (U : list R) (P : list (list R)) (X order : list R) (dim : nat),
+  (1 <= p)%nat -> sortedR U -> (p < length P)%nat -> length U = (length P + p + 1)%nat ->
+  X <> [] -> sortedR X -> (knR U p <= nth 0 X 0)%R -> (nth (length X - 1) X 0 < knR U (length P))%R ->
+  (forall x y, In x X -> In y (X ++ U) -> (x < y)%R -> (tol <= y - x)%R) ->
+  (forall x, In x X -> (count_occ Req_EM_T (X ++ U) x <= p)%nat) ->
+  (forall i, (i < length P)%nat -> length (getp P i) = dim) ->
+  (0 <= tolm)%R -> (forall x y, In x X -> In y (X ++ U) -> (Rabs (x - y) <= tolm)%R -> y = x) -> (0 <= tol2)%R ->
+  Permutation order X ->
+  let '(Q, V) := refine_pts Rops tol p U P X in
+  fold_left (fun c x => fst (remove_knot_curve Rops tolm tol2 true c [Some x] [1%Z])) order (mkC p V Q) = mkC p U P.
+Proof. exact remove_after_refine_any_order_one_by_one. Qed.
+Print Assumptions C06_remove_after_refinement_one_by_one.
+
+(* [G] helpers.knot_refinement as a whole (any knot_list / add_knot_list / density; RefineOp.plan_ok = the hypotheses of
+   C05_knot_refinement_correct), then remove_knot of every value mk of the bisected list "with its count" p - mult_U(mk) (the number of
+   copies the refinement inserted; 0 = nothing to do), the values in ANY order: the original curve record; the points never changed *)
+Theorem C06_remove_after_knot_refinement :
+  forall (tol tol2 : R) check (p : nat) (U : list R) (P : list (list R)) klo add d (dim : nat) Q V order,
+  let kl := (match klo with Some l => l | None => slice U p (length U - p) end) ++ add in
+  plan_ok tol p U (length P) d kl -> (forall i, (i < length P)%nat -> length (getp P i) = dim) -> (0 <= tol2)%R ->
+  knot_refinement Rops tol check p U P klo add d = Ok (Q, V) ->
+  Permutation order (refine_Lk d kl) ->
+  fold_left (fun c mk => fst (remove_knot_curve Rops tol tol2 true c [Some mk] [Z.of_nat (p - find_multiplicity Rops tol mk U)]))
+            order (mkC p V Q) = mkC p U P /\
+  forall cc t, (cc < dim)%nat -> curve_pt p V Q cc t = curve_pt p U P cc t.
+Proof. exact remove_after_knot_refinement_any_order. Qed.
+Print Assumptions C06_remove_after_knot_refinement.
+
+(* [G] operations.refine_knotvector(curve, [density]) then remove_knot of every value of the bisected list with its count, any order:
+   the original curve object (default_ok: the hypotheses of C05_refine_curve_correct) *)
+Theorem C06_remove_after_refine_knotvector_curve :
+  forall (tol tol2 : R) check (c c' : curve (T:=R)) params (dim : nat) order,
+  default_ok tol (c_p c) (c_U c) (length (c_P c)) (dens params 0) ->
+  (forall i, (i < length (c_P c))%nat -> length (getp (c_P c) i) = dim) -> (0 <= tol2)%R ->
+  dens params 0 <> 0%nat -> refine_curve Rops tol check c params = (c', false) ->
+  Permutation order (refine_L (c_p c) (c_U c) (dens params 0)) ->
+  fold_left (fun cv mk => fst (remove_knot_curve Rops tol tol2 true cv [Some mk]
+                                 [Z.of_nat (c_p c - find_multiplicity Rops tol mk (c_U c))])) order c' = c.
+Proof. exact remove_after_refine_curve_any_order. Qed.
+Print Assumptions C06_remove_after_refine_knotvector_curve.
+
+(* ---- non-vacuity over the REALS: the quadratic curve exUR = [0,0,0,1/2,1,1,1] (= RefineExamples.exU), four planar points exPR, exXR =
+        [1/4,1/4,1/2,3/4,3/4] (1/2: multiplicity 1 -> 2; 1/4, 3/4 new double knots), tolerances 1/1000, and the schedule
+        [(1/2,1); (3/4,2); (1/4,1); (1/4,1)] - NOT the order of insertion: all hypotheses hold, hence the conclusion ---- *)
+Example C06_remove_after_refinement_hypotheses_satisfiable :
+  (1 <= 2)%nat /\ sortedR exUR /\ (2 < length exPR)%nat /\ length exUR = (length exPR + 2 + 1)%nat /\
+  exXR <> [] /\ sortedR exXR /\ (knR exUR 2 <= nth 0 exXR 0)%R /\ (nth (length exXR - 1) exXR 0 < knR exUR (length exPR))%R /\
+  (forall x y, In x exXR -> In y (exXR ++ exUR) -> (x < y)%R -> (1/1000 <= y - x)%R) /\
+  (forall x, In x exXR -> (count_occ Req_EM_T (exXR ++ exUR) x <= 2)%nat) /\
+  (forall i, (i < length exPR)%nat -> length (getp exPR i) = 2%nat) /\
+  (0 <= 1/1000)%R /\ (forall x y, In x exXR -> In y (exXR ++ exUR) -> (Rabs (x - y) <= 1/1000)%R -> y = x) /\ (0 <= 1/1000000)%R /\
+  Permutation (expand exSched) exXR.
+Proof. exact any_order_hypotheses_satisfiable_R. Qed.
+
+Example C06_commute_hypotheses_satisfiable :
+  (0 <= 1/1000)%R /\ cwf exCR 2 /\
+  par_ok (1/1000) (c_p exCR) (c_U exCR) (length (c_P exCR)) (Some (1/4)%R) /\
+  par_ok (1/1000) (c_p exCR) (c_U exCR) (length (c_P exCR)) (Some (1/2)%R) /\ (1/1000 < Rabs (1/2 - 1/4))%R.
+Proof. exact commute_hypotheses_satisfiable. Qed.
+
+(* ---- ... and at the executable instance (exact rationals): the cubic curve exU / exP of this file (renamed), refined by A5.4 with
+        X = [1/8, 1/4, 1/4, 3/4] (1/4: multiplicity 1 -> 3), then remove_knot in the scrambled order 1/4 (twice in one call), 3/4, 1/8 and
+        one at a time in the order 3/4, 1/4, 1/8, 1/4: control points and knot vector of the original curve ---- *)
+Definition exUr : list Q := [0;0;0;0;1#4;1#2;1#2;1;1;1;1]%Q.
+Definition exPr : list (list Q) := [[0;0];[1;2];[3;1];[4;4];[6;0];[7;3];[9;1]]%Q.
+Definition exXr : list Q := [1#8; 1#4; 1#4; 3#4]%Q.
+Example C06_remove_after_refinement_instance :
+  let QV := refine_pts Qops (1#100000000)%Q 3 exUr exPr exXr in
+  let c1 := mkC 3 (snd QV) (fst QV) in
+  let rm := fun (c : @curve Q) (e : Q * Z) => fst (remove_knot_curve Qops (1#100000000)%Q (1#1000000)%Q true c [Some (fst e)] [snd e]) in
+  let cA := fold_left rm [((1#4)%Q, 2%Z); ((3#4)%Q, 1%Z); ((1#8)%Q, 1%Z)] c1 in
+  let cB := fold_left rm [((3#4)%Q, 1%Z); ((1#4)%Q, 1%Z); ((1#8)%Q, 1%Z); ((1#4)%Q, 1%Z)] c1 in
+  length (fst QV) = 11%nat /\ length (snd QV) = 15%nat /\
+  eqLQ (c_U cA) exUr = true /\ eqLLQ (c_P cA) exPr = true /\ eqLQ (c_U cB) exUr = true /\ eqLLQ (c_P cB) exPr = true /\
+  (* removing only 3/4 and one copy of 1/4 leaves the refinement by [1/8, 1/4] *)
+  (let cC := fold_left rm [((3#4)%Q, 1%Z); ((1#4)%Q, 1%Z)] c1 in
+   let QV' := refine_pts Qops (1#100000000)%Q 3 exUr exPr [1#8; 1#4]%Q in
+   eqLQ (c_U cC) (snd QV') = true /\ eqLLQ (c_P cC) (fst QV') = true) /\
+  (* A5.4 = one insert_knot call per knot, here in the order 1/4, 3/4, 1/8, 1/4 *)
+  (let ins := fun (c : @curve Q) (x : Q) => fst (insert_knot_curve Qops (1#100000000)%Q true c [Some x] [1%Z]) in
+   let cI := fold_left ins [1#4; 3#4; 1#8; 1#4]%Q (mkC 3 exUr exPr) in
+   eqLQ (c_U cI) (snd QV) = true /\ eqLLQ (c_P cI) (fst QV) = true).
+Proof. cbv zeta. repeat split; vm_compute; congruence. Qed.
+
+
 (* ====================== TRANSLATOR TIE (Proofs/GenTie*.v) ======================
    coq/Gen/*.v is the Gallina rendering of the Python source produced by harness/pytrans.py; every run of ./check regenerates it
    from /repo and compares it function by function with the committed text (evidence: translator_tie).  The theorems below say
